@@ -350,7 +350,9 @@ def swf_consts(n, nout):
 def swf_execute(ck, sched, n, nout, name):
     res = ck.go_test("./htlcswitch/", "^TestVerifC07SwitchForward$", HARNESS,
                      env={"VERIF_C07_SWFWD": sched, "VERIF_C07_SWFWD_N": n, "VERIF_C07_SWFWD_OUT": nout, "VERIF_PAR": 4},
-                     name=name, timeout=900)
+                     name=name, timeout=900,
+                     extra_overlay=({"htlcswitch/circuit_map.go": os.environ["VERIF_C07_OVERLAY"]}
+                                    if os.environ.get("VERIF_C07_OVERLAY") else None))
     p = os.path.join(res["dir"], "trace_switch.ndjson")
     if not os.path.exists(p) or os.path.getsize(p) == 0:
         raise Inconclusive("switch-level executor produced no trace:\n" + res["out"][-3000:])
